@@ -20,6 +20,7 @@ import (
 	"sort"
 	"strings"
 	"sync"
+	"sync/atomic"
 	"testing/synctest"
 	"time"
 )
@@ -60,6 +61,8 @@ type pend struct {
 	waitTO   time.Duration
 	rec      *ReqRecord
 	storeKey string
+	fn       func() // storage seam: the real driver call (run by the scheduler in co-release mode "sched")
+	write    bool
 }
 
 // Proc is one simulated Helm process incarnation.
@@ -91,7 +94,7 @@ type Sim struct {
 	Server  *APIServer
 	pending []*pend
 	wake    chan struct{}
-	seq     uint64
+	seq     atomic.Uint64
 	Log     []*ReqRecord
 	evHash  hash.Hash
 	EvCount int
@@ -114,7 +117,7 @@ type Sim struct {
 	Hang        string
 	stepBudget  int
 	steps       int
-	coRelease   bool
+	coRelease   string // "" | "sched" | "inner"
 	waitFn      func(p *pend) pendResult
 	Trace       io.Writer
 }
@@ -155,7 +158,8 @@ func (s *Sim) EventHash() string { return hex.EncodeToString(s.evHash.Sum(nil)) 
 
 func (s *Sim) Probe(name string) { s.Probes[name]++ }
 
-func (s *Sim) nextSeq() uint64 { s.seq++; return s.seq }
+func (s *Sim) nextSeq() uint64 { return s.seq.Add(1) }
+func (s *Sim) curSeq() uint64  { return s.seq.Load() }
 
 func (s *Sim) poke() {
 	select {
@@ -270,7 +274,7 @@ func (s *Sim) Run(done func() bool) {
 			continue
 		}
 		s.lastProg = time.Now()
-		if s.coRelease {
+		if s.coRelease != "" {
 			s.serveCoRelease(cands)
 			continue
 		}
@@ -582,25 +586,29 @@ func (s *Sim) serveStore(p *pend, f *FaultSpec) {
 	p.done <- res
 }
 
-// serveCoRelease (race-detector mode): compute the answers of a commuting set
-// of candidates one after the other, then release their goroutines together so
-// that no happens-before edge is created between the code that follows.
+// serveCoRelease (race-detector mode): compute the answers of a set of
+// candidates one after the other, then release their goroutines so that no
+// happens-before edge exists between the code segments that follow. Answers
+// are computed by the scheduler in deterministic order, so the run stays
+// replayable. In sub-mode "inner" a storage call is executed by its own
+// goroutine (exposing the driver's internals to concurrency); a set then holds
+// at most one storage call, which keeps results deterministic.
 func (s *Sim) serveCoRelease(cands []*pend) {
-	// one candidate per process, all of them
 	seen := map[string]bool{}
 	var set []*pend
+	stores := 0
 	for _, c := range cands {
-		if !seen[c.proc.ID] {
-			seen[c.proc.ID] = true
-			set = append(set, c)
+		if seen[c.proc.ID] {
+			continue
 		}
+		_ = stores
+		seen[c.proc.ID] = true
+		set = append(set, c)
 	}
-	// schedule vector decides how many of them go together (at least one)
 	n := 1
 	if len(set) > 1 {
 		s.Choices++
 		n = 1 + int(s.nextChoice()%uint32(len(set)))
-		// rotate start
 		r := int(s.nextChoice() % uint32(len(set)))
 		set = append(set[r:], set[:r]...)
 	}
@@ -616,32 +624,41 @@ func (s *Sim) serveCoRelease(cands []*pend) {
 		p.served = true
 		s.mu.Unlock()
 		rec := p.rec
+		res := pendResult{}
 		switch p.kind {
 		case pkHTTP:
 			r := s.Server.Handle(p.verb, p.path, p.query, p.ctype, p.body)
-			rec.SeqOut = s.nextSeq()
 			rec.Status = r.Status
-			rec.Applied = true
-			outs = append(outs, out{p, pendResult{resp: &r}})
-		default:
-			rec.SeqOut = s.nextSeq()
+			res.resp = &r
+		case pkStore:
 			rec.Status = 200
-			rec.Applied = true
-			outs = append(outs, out{p, pendResult{}})
+			if s.coRelease == "sched" && p.fn != nil {
+				p.fn()
+				res.verdict = "done"
+			}
+		default:
+			rec.Status = 200
+			if p.verb == "WAITDEL" {
+				for _, id := range p.waitRes {
+					if s.Server.Get(id) != nil {
+						res.verdict = "timeout"
+						res.sleep = p.waitTO
+						rec.Status = 599
+					}
+				}
+			}
 		}
+		rec.SeqOut = s.nextSeq()
+		rec.Applied = true
+		outs = append(outs, out{p, res})
 		s.Event("%d CO-SERVE %s %s %s -> %d", rec.SeqOut, p.proc.ID, p.verb, p.path, rec.Status)
 	}
 	if len(outs) > 1 {
 		s.Probes["co-released>1"]++
 	}
-	// release together: hand every goroutine its answer through a channel
-	// that was made before any of them could have observed the others
-	gate := make(chan struct{})
 	for _, o := range outs {
-		o := o
-		go func() { <-gate; o.p.done <- o.r }()
+		o.p.done <- o.r
 	}
-	close(gate)
 }
 
 // ---- helpers used by the factory and the waiter stub ----
